@@ -78,6 +78,9 @@ func KeychainFromDocs(w *world.World, docs []model.Doc, fail []string) *Keychain
 			if a == nil || a.Options["hash"] != "" || a.Password == "" {
 				continue
 			}
+			if a.KeychainErr {
+				k.Fail[u.Name] = true
+			}
 			for _, p := range plan.PwPool {
 				if p.Pw == a.Password {
 					raw, _ := hex.DecodeString(p.Hash)
